@@ -197,7 +197,8 @@ def is_known(pid, f, known):
     for k in known:
         if k.get("status") != "open":
             continue
-        if pid not in k.get("properties", []):
+        if pid not in k.get("properties", []) and not k.get("seen_from_any_property"):
+            # (an open finding in a unit that several properties run is reported, under ITS property, by each of them)
             continue
         if k.get("unit") == f.get("unit") and k.get("function") == f["function"] and k.get("kind") == f["kind"]:
             if k.get("at") and k["at"] not in (f.get("at") or ""):
@@ -340,7 +341,7 @@ def main(argv):
         verdict = "UNDECIDED"
 
     for k, f in known_hits:
-        print("KNOWN-FINDING: property=%s %s [%s/%s/%s]" % (pid, k.get("what", ""), f["unit"], f["function"], f["kind"]))
+        print("KNOWN-FINDING: property=%s %s [%s/%s/%s]" % (pid if pid in k.get("properties", []) else k["properties"][0], k.get("what", ""), f["unit"], f["function"], f["kind"]))
     wall = time.time() - t0
 
     # evidence
